@@ -501,7 +501,7 @@ func obsC14(raw json.RawMessage) map[string]interface{} {
 // ---------------------------------------------------------------- C15
 
 // symbols of ValueSet.tla for names / subtypes that need care, and the strings they stand for
-var oddStrings = map[string]string{"xdotless": "\u0131", "xdigit": "1a", "xunder": "_a", "xcomma": "a,b", "xcomman": "c,d", "xquote": "a\"b", "xback": "a\\b"}
+var oddStrings = map[string]string{"xdotless": "\u0131", "xdigit": "1a", "xunder": "_a", "xcomma": "a,b", "xcomman": "c,d", "xquote": "a\"b", "xback": "a\\b", "xblankn": "a ", "xblanks": " s"}
 var oddSymbols = func() map[string]string {
 	m := map[string]string{}
 	for k, v := range oddStrings {
